@@ -76,8 +76,9 @@ META = {
         "statelessness across calls and aliasing = sharing of the REAL code are harness-only (reuse / stale / views / interleave / "
         "copies / fresh streams): the corresponding Lean facts are facts of a pure model (lemmas, not property theorems); likewise "
         "that broadcast_inputs / expand / autograd's reduction behave like the model's `bcontribs` rests on the `batch` stream",
-        "not covered by a single theorem: group-valued roots ('.grad = derivative read through the chart Log(Y Y0^-1)': only the "
-        "pieces chart_reads_tangent, chart_in_regime, program_tangent_exact_*); the SE3 calcQ series branch eps < theta <= 0.05; "
+        "group-valued roots ('.grad for the storage cotangent (c,0) = derivative of <c, Log(Y(t) Y(0)^-1)>') are theorems since pass 7 "
+        "(group_root_gradient_exact_algebraic at full strength, group_root_gradient_exact_partial under Regimes); not covered by a "
+        "theorem: the SE3 calcQ series branch eps < theta <= 0.05; "
         "sim3: distance of sim3_Jl / sim3_Jl_inv from the exact left-Jacobian series <= C |ad xi|^6 for |ad xi| <= 1 is proved "
         "(sim3_Jl_truncation_bound_partial), that this series is the derivative of the coded sim3_Exp is not; the calcQ threshold "
         "is the exact 5/100 in the model but float(0.05) in the code (float32: 0.0500000007): at theta == float(0.05) the two sit on "
@@ -602,6 +603,21 @@ def collect_model(case, reps, index):
 
 # ----------------------------------------------------------------------------- comparison
 
+def nmax(xs, default=0.0):
+    """maximum that PROPAGATES NaN (Python's max drops a NaN that is not the first element): pass 7, NaN polarity"""
+    m = default
+    for x in xs:
+        if x != x:
+            return float("nan")
+        if x > m:
+            m = x
+    return m
+
+
+class NonFinite(ArithmeticError):
+    """the real code returned NaN / Inf for a finite valid input"""
+
+
 def tol_rel(dtype):
     return 1e3 * common.EPS["float64"] if dtype == "float64" else 4 * math.sqrt(common.EPS["float32"])
 
@@ -793,7 +809,7 @@ def compare_grads(case, r, M, band):
         for i, (gr, wr) in enumerate(zip(got, want)):
             rowmax = max((s2 for _, s2 in sc[i]), default=0.0) if jv else 0.0
             for (lo, hi), s_ in sc[i]:
-                err = max((abs(a - b) for a, b in zip(gr[lo:hi], wr[lo:hi])), default=0.0)
+                err = nmax(abs(a - b) for a, b in zip(gr[lo:hi], wr[lo:hi]))
                 f_ = max(fl[i][lo:hi], default=0.0) + jv * rowmax
                 if s_ > 0:
                     worst = max(worst, err / (s_ * t + f_))
@@ -936,7 +952,7 @@ def assess(case, r, M):
     A = {"fbad": None, "gbad": [], "obad": [], "nchk": 0, "nskip": 0, "oracle_skipped": False, "worst": 0.0}
     for b in range(nb):
         sc = max(1.0, max((abs(v) for v in M["eval"][b]), default=0.0))   # sanity only: the forward laws are C01-C03's
-        e = max((abs(a - c) for a, c in zip(out[b], M["eval"][b])), default=0.0)
+        e = nmax(abs(a - c) for a, c in zip(out[b], M["eval"][b]))
         if not (e <= tf * sc) or len(out[b]) != len(M["eval"][b]):
             A["fbad"] = (b, e, tf * sc)
     A["gbad"], A["worst"] = compare_grads(case, r, M, band)
@@ -1023,6 +1039,11 @@ def prepare(ctx: Ctx, case, rng, tries=8):
             return None
         g = guards(case, r)
         if g is None:
+            # pass 7 (38a): inside the quantifier's domain a NaN / Inf value or gradient is a failure by itself (outside it — Log / Jinvp
+            # next to pi, Jinvp at the zero rotation — the property does not promise finiteness: the case is re-drawn)
+            if not bool(torch.isfinite(r.out).all()) or any(x is not None and not bool(torch.isfinite(x).all()) for x in r.grads):
+                ctx.fail(case, f"nan: non-finite result: value / gradient of {ps} contains NaN/Inf for finite valid operands ({case['dtype']})")
+                return None
             r.band, r.trunc = site_info(case, r)
             if case.get("blockwise"):
                 measure_floor(case, r)
@@ -1429,7 +1450,7 @@ def run_corpus(ctx: Ctx, n_items: int, dtypes, fd_every: int, rows_fn=None, stre
                     ty = tuple(case["ltypes"][li])
                     rowb, row1 = gb[b].tolist(), g1.tolist()
                     for lo, hi in blocks(ty):
-                        err = max(abs(x - y) for x, y in zip(rowb[lo:hi], row1[lo:hi]))
+                        err = nmax(abs(x - y) for x, y in zip(rowb[lo:hi], row1[lo:hi]))
                         sc = max(abs(y) for y in row1[lo:hi])
                         if not (err <= t * sc) and not (sc == 0 and err <= 1e-300):
                             ctx.fail(dict(c1, batch_case={k: case[k] for k in ("prog", "ltypes", "dtype")}, item=b),
@@ -1437,7 +1458,7 @@ def run_corpus(ctx: Ctx, n_items: int, dtypes, fd_every: int, rows_fn=None, stre
                                      f"same call on that item alone by {err:.3e} (block scale {sc:.3e}, {dtype})")
                             break
                 ob, o1 = r.out[b].flatten().tolist(), r1.out.flatten().tolist()
-                err = max((abs(x - y) for x, y in zip(ob, o1)), default=0.0)
+                err = nmax(abs(x - y) for x, y in zip(ob, o1))
                 sc = max((abs(y) for y in o1), default=0.0)
                 if not (err <= t * sc) and not (sc == 0 and err <= 1e-300):
                     ctx.fail(dict(c1, item=b), f"batch: value of {ps} for item {b} inside a mixed-regime batch differs from the single call by {err:.3e} ({dtype})")
@@ -1487,6 +1508,13 @@ def grads_of(P, fn, g, X, a, p, c=None):
     if c is None:
         c = torch.cos(torch.arange(out.numel(), dtype=torch.float64) * 0.7 + 0.3).reshape(out.shape).to(out.dtype)
     gs = torch.autograd.grad(out, [Xl, al, pl], grad_outputs=c, allow_unused=True)
+    # pass 7 (38a): the operands of every stream that comes through here are finite valid elements inside the quantifier, so a NaN / Inf
+    # value or gradient is a failure by itself — and `same` (NaN == NaN) / `err > tol` comparisons downstream would not notice it
+    if not bool(torch.isfinite(out).all()) or any(x is not None and not bool(torch.isfinite(x).all()) for x in gs):
+        bad = [t_ for t_ in [out] + [x for x in gs if x is not None] if not bool(torch.isfinite(t_).all())][0]
+        row = int((~torch.isfinite(bad)).reshape(bad.shape[0], -1).any(-1).nonzero()[0]) if bad.dim() > 1 and X.dim() > 1 and bad.shape[0] == X.shape[0] else None
+        ops = [(t_[row] if row is not None and t_.dim() > 1 and t_.shape[0] == X.shape[0] else t_).flatten()[:8].tolist() for t_ in (X, a, p)]
+        raise NonFinite(f"non-finite value or gradient for the finite operands (item {row}) X={ops[0]} a={ops[1]} p={ops[2]}"[:420])
     return out.detach(), [None if x is None else x.detach() for x in gs]
 
 
@@ -1557,7 +1585,7 @@ def run_reuse(ctx: Ctx):
                         continue
                     acc = x1 + x2
                     err = float((leaf.grad - acc).abs().max())
-                    if err > 4 * common.EPS[dtype] * (1e-300 + float(acc.abs().max())):
+                    if not (err <= 4 * common.EPS[dtype] * (1e-300 + float(acc.abs().max()))):
                         ctx.fail(case, f"reuse: .grad accumulated over two backward calls of {name} ({g}, {dtype}) is not the sum of the two gradients (err {err:.3e})")
                 _, gf = grads_of(P, fn, g, X, a, p, c1)
                 if not all(same(x, y) for x, y in zip(g1, gf)):
@@ -1593,7 +1621,7 @@ def run_reuse(ctx: Ctx):
                 tol = 0.0 if not vec else 64 * common.EPS["float64"]
                 for j1, j2 in zip(J, Jf):
                     j1, j2 = torch.Tensor.as_subclass(j1, torch.Tensor), torch.Tensor.as_subclass(j2, torch.Tensor)
-                    if j1.shape != j2.shape or float((j1 - j2).abs().max()) > tol * (1 + float(j2.abs().max())):
+                    if j1.shape != j2.shape or not (float((j1 - j2).abs().max()) <= tol * (1 + float(j2.abs().max()))):
                         ctx.fail(dict(case, call=k, npts=npts, vectorize=vec, flatten=flat),
                                  f"reuse: call #{k} of modjac on one module ({g}, {npts} points, vectorize={vec}, flatten={flat}) differs from a fresh module")
                         break
@@ -1719,7 +1747,7 @@ def run_views(ctx: Ctx):
                     if ge is not None:
                         ref = gr[0].sum(0, keepdim=True)
                         err = float((ge - ref).abs().max())
-                        if err > 64 * common.EPS[dtype] * (1e-300 + float(gr[0].abs().sum(0).max())):
+                        if not (err <= 64 * common.EPS[dtype] * (1e-300 + float(gr[0].abs().sum(0).max()))):
                             ctx.fail(case, f"views: gradient of an expanded (stride-0) {g} element through {name} is not the sum over the batch (err {err:.3e}, {dtype})")
                 except Exception as e:
                     ctx.fail(case, f"raises: {name} on {g} views ({dtype}) raised {type(e).__name__}: {str(e)[:140]}")
@@ -1737,7 +1765,7 @@ def run_views(ctx: Ctx):
                 g1, g2 = torch.autograd.grad(out2, [X1, X2], c)
                 ctx.count("views.alias")
                 err = float((ga - (g1 + g2)).abs().max())
-                if not same(out.detach(), out2.detach()) or err > 4 * common.EPS[dtype] * (1e-300 + float((g1.abs() + g2.abs()).max())):
+                if not same(out.detach(), out2.detach()) or not (err <= 4 * common.EPS[dtype] * (1e-300 + float((g1.abs() + g2.abs()).max()))):
                     ctx.fail(case, f"views: X @ X with one tensor as both arguments ({g}, {dtype}) is not the sum of the two argument gradients (err {err:.3e})")
             except Exception as e:
                 ctx.fail(case, f"raises: aliased arguments on {g} ({dtype}) raised {type(e).__name__}: {str(e)[:140]}")
